@@ -20,6 +20,7 @@ S3 CAS lock (datashard.lock_provider.S3LockProvider over the in-memory S3):
 """
 from __future__ import annotations
 
+import json
 import os
 import signal
 import subprocess
@@ -437,6 +438,100 @@ def death_case(payload: Tuple[str, int]) -> Dict[str, Any]:
     return rep.part()
 
 
+_FORK = r"""
+import os, sys, time, json
+from datashard.file_lock import FileLock
+path, cycles, holder = sys.argv[1], int(sys.argv[2]), sys.argv[3]
+lk = FileLock(path, timeout=0.4)
+for _ in range(cycles):          # the handle has already been used (completed acquire/release cycles) before the fork
+    lk.acquire(); lk.release()
+res = {}
+if holder == "parent":
+    lk.acquire()
+r, w = os.pipe()
+pid = os.fork()
+if pid == 0:
+    os.close(r)
+    out = {}
+    t0 = time.monotonic()
+    try:
+        out["acquired"] = bool(lk.acquire())          # the INHERITED lock object
+        out["held"] = bool(lk.is_held())
+        if holder == "child":
+            time.sleep(1.2)                            # hold while the parent tries
+        lk.release()
+    except TimeoutError:
+        out["acquired"] = False
+    except Exception as e:
+        out["error"] = type(e).__name__
+    out["waited"] = round(time.monotonic() - t0, 2)
+    os.write(w, json.dumps(out).encode()); os._exit(0)
+os.close(w)
+if holder == "child":
+    time.sleep(0.3)                                    # the child holds by now
+    try:
+        res["parent_acquired"] = bool(lk.acquire()); lk.release()
+    except TimeoutError:
+        res["parent_acquired"] = False
+data = b""
+while True:
+    b = os.read(r, 4096)
+    if not b: break
+    data += b
+os.waitpid(pid, 0)
+res["child"] = json.loads(data.decode() or "{}")
+if holder == "parent":
+    res["parent_still_holds"] = bool(lk.is_held())
+    # an unrelated contender with its own lock object, while the parent still holds
+    other = FileLock(path, timeout=0.2)
+    try:
+        res["other_acquired"] = bool(other.acquire()); other.release()
+    except TimeoutError:
+        res["other_acquired"] = False
+    lk.release()
+print(json.dumps(res))
+"""
+
+
+def fork_case(payload: Tuple[str, int]) -> Dict[str, Any]:
+    """A lock object inherited through fork(): {never used, used for 1 or 2 complete cycles before the fork} x {the
+    parent holds and the child tries, the child holds and the parent tries}.  Two processes never hold at once."""
+    tier, seed = payload
+    rep = Report("C19", tier, seed, "model_checking")
+    root = fresh_dir(f"c19-fork-{os.getpid()}")
+    os.makedirs(os.path.join(root, ".locks"), exist_ok=True)
+    path = os.path.join(root, ".locks", "metadata.lock")
+    env = dict(os.environ, PYTHONHASHSEED="0")
+    for cycles in (0, 1, 2):
+        for holder in ("parent", "child"):
+            p = subprocess.run([sys.executable, "-c", _FORK, path, str(cycles), holder], env=env, capture_output=True,
+                               text=True, timeout=120)
+            rep.add("fork_inheritance_cases")
+            rep.nontrivial(("fork", cycles, holder))
+            try:
+                res = json.loads(p.stdout.strip().splitlines()[-1])
+            except Exception:
+                raise HarnessError(f"fork case {cycles}/{holder} failed: rc={p.returncode} {p.stderr[-300:]}")
+            probs = []
+            ch = res.get("child", {})
+            if holder == "parent":
+                if ch.get("acquired"):
+                    probs.append("the child acquired through the inherited lock object while the parent holds")
+                if not res.get("parent_still_holds"):
+                    probs.append("the parent no longer holds after the child's attempt")
+                if res.get("other_acquired"):
+                    probs.append("an unrelated contender acquired while the parent still holds")
+            else:
+                if not ch.get("acquired"):
+                    probs.append(f"the child could not acquire a free lock: {ch}")
+                if res.get("parent_acquired"):
+                    probs.append("the parent acquired while the child holds")
+            if probs:
+                rep.violation({"lock": "local", "scenario": "fork_inherited_lock_object", "problem": probs[0][:70]},
+                              {"completed_cycles_before_fork": cycles, "holder": holder, "result": res, "problems": probs})
+    return rep.part()
+
+
 # ---------------------------------------------------------------------------
 def run_config(cfg: Dict[str, Any]) -> Dict[str, Any]:
     rep = Report("C19", cfg["tier"], cfg["seed"], "model_checking")
@@ -506,6 +601,8 @@ def configs(tier: str, seed: int) -> List[Dict[str, Any]]:
 def run(tier: str, seed: int) -> Report:
     rep = Report("C19", tier, seed, "model_checking")
     for part in pmap("checks.c19", "run_config", configs(tier, seed)):
+        rep.merge(part)
+    for part in pmap("checks.c19", "fork_case", [(tier, seed)]):
         rep.merge(part)
     for part in pmap("checks.c19", "death_case", [(tier, seed)]):
         rep.merge(part)
